@@ -243,6 +243,34 @@ pub fn run_tuple(srcs: &[&Src], kinds: &[Kind], collect_forms: bool) -> Result<u
                         Op::SymmetricDifference => drain_op(b.symmetric_difference())?,
                     };
                     check_rows(&format!("raw op() + extend x2 (split {}) + push {:?}", split, op), got, &want)?;
+                    // the other order: a bulk add FIRST (extend on an empty builder, or collect),
+                    // then every remaining stream pushed / added one by one
+                    for via_collect in [false, true] {
+                        let head = &fsts[..split.min(k)];
+                        let mut b: raw::OpBuilder = if via_collect { head.iter().collect() } else { let mut b = raw::OpBuilder::new(); b.extend(head.iter()); b };
+                        for (j, f) in fsts[split.min(k)..].iter().enumerate() {
+                            if j % 2 == 0 { b.push(f); } else { b = b.add(f); }
+                        }
+                        let got = match op {
+                            Op::Union => drain_op(b.union())?,
+                            Op::Intersection => drain_op(b.intersection())?,
+                            Op::Difference => drain_op(b.difference())?,
+                            Op::SymmetricDifference => drain_op(b.symmetric_difference())?,
+                        };
+                        check_rows(&format!("raw {} of the first {} streams, then push/add of the rest, {:?}", if via_collect { "collect" } else { "extend on an empty builder" }, split.min(k), op), got, &want)?;
+                        let headm = &maps[..split.min(k)];
+                        let mut b: fst::map::OpBuilder = if via_collect { headm.iter().collect() } else { let mut b = fst::map::OpBuilder::new(); b.extend(headm.iter()); b };
+                        for (j, m) in maps[split.min(k)..].iter().enumerate() {
+                            if j % 2 == 0 { b.push(m); } else { b = b.add(m); }
+                        }
+                        let got = match op {
+                            Op::Union => drain_op(b.union())?,
+                            Op::Intersection => drain_op(b.intersection())?,
+                            Op::Difference => drain_op(b.difference())?,
+                            Op::SymmetricDifference => drain_op(b.symmetric_difference())?,
+                        };
+                        check_rows(&format!("map {} of the first {} streams, then push/add of the rest, {:?}", if via_collect { "collect" } else { "extend on an empty builder" }, split.min(k), op), got, &want)?;
+                    }
                     let mut b = maps[0].op();
                     b.extend(std::iter::empty::<&Map<&[u8]>>());
                     b.extend(maps[1..split.min(last).max(1)].iter());
@@ -358,7 +386,7 @@ pub fn replay(case: &Value) -> Result<String, String> {
 pub fn plan(tier: Tier) -> Plan {
     let mut p = Plan::new("C05", "model_checking");
     let thorough = tier.thorough();
-    p.rule = "every k-tuple (k=1..4) of subsets of U4={'',a,ab,b} and (k=5,6) of U3={'',a,b}, and (k=2,3) of Unul={'',00,a,a00} (keys differing only in trailing NUL bytes) and of Ulong (8-11 byte keys sharing a 7-byte prefix), values 10*stream+key-index and constant 5 (heap ties), stream kinds {whole FST, range().ge(''), search(AlwaysMatch), user Vec streamer} (all kind vectors for k<=3 quick / k<=4 thorough, a rotating vector above), four operations through raw/map/set OpBuilder (+FromIterator/Extend/op().add() forms, and builders that already hold streams extended twice - also with empty iterators - at every split point, then pushed to), IndexedValue lists compared as sets; is_disjoint/is_subset/is_superset for all ordered pairs x stream kinds; finite family of 7..40, 64, 100, 257, 300 operand streams over a 6-key universe (4 layouts each); run-length family: every sequence of <= 4 (2 streams) / <= 3 (3 streams) segments, a segment being 1, 7, 8, 9 or 17 (thorough up to 33) consecutive keys held by one fixed non-empty group of the streams, neighbours differing in the group. non-trivial = tuples with k >= 2 and at least two non-empty streams".into();
+    p.rule = "every k-tuple (k=1..4) of subsets of U4={'',a,ab,b} and (k=5,6) of U3={'',a,b}, and (k=2,3) of Unul={'',00,a,a00} (keys differing only in trailing NUL bytes) and of Ulong (8-11 byte keys sharing a 7-byte prefix), values 10*stream+key-index and constant 5 (heap ties), stream kinds {whole FST, range().ge(''), search(AlwaysMatch), user Vec streamer} (all kind vectors for k<=3 quick / k<=4 thorough, a rotating vector above), four operations through raw/map/set OpBuilder (+FromIterator/Extend/op().add() forms, and builders that already hold streams extended twice - also with empty iterators - at every split point, then pushed to; and the other order: a bulk add first - extend on an empty builder, or collect - then push / add of every remaining stream), IndexedValue lists compared as sets; is_disjoint/is_subset/is_superset for all ordered pairs x stream kinds; finite family of 7..40, 64, 100, 257, 300 operand streams over a 6-key universe (4 layouts each); run-length family: every sequence of <= 4 (2 streams) / <= 3 (3 streams) segments, a segment being 1, 7, 8, 9 or 17 (thorough up to 33) consecutive keys held by one fixed non-empty group of the streams, neighbours differing in the group. non-trivial = tuples with k >= 2 and at least two non-empty streams".into();
     p.assumptions = vec!["order inside an IndexedValue list is unspecified and is normalised before comparison".into()];
     let u4: Vec<Key> = vec![b"".to_vec(), b"a".to_vec(), b"ab".to_vec(), b"b".to_vec()];
     let u3: Vec<Key> = vec![b"".to_vec(), b"a".to_vec(), b"b".to_vec()];
